@@ -496,4 +496,37 @@ example : (runM (newFromFd 6) [{ sys := .getsockopt, ret := .ok 0, val := 1, len
     (fun x => (x.1.1.isSome, x.1.2.map (·.code), x.2.2.length)) = some (false, some P_ERROR_IO_INVALID_ARGUMENT, 1) := by decide
 example : (runM (newFromFd 6) newFromFdAnswers 0).toOption.map (fun x => (x.1.1.map (·.fd), x.1.2.isSome)) = some (some 6, false) := by decide
 
+/-! ## 7. `p_socket_shutdown`: how the two `pboolean` arguments are read
+
+Full statement — "every non-zero value means TRUE": `∀ rd wr, shutdownArgs rd wr = Spec.shutdownArgs rd wr` — is
+**false of the code**: the function compares with `== TRUE`, so `p_socket_shutdown (s, 2, FALSE)` shuts the WRITE
+direction down and `(2, 2)` shuts only WRITE down and leaves `connected` set (witness below; replay
+`coverage/sockets-shutdown-pboolean.replay`).  Proved: the statement for the canonical values 0 / 1, and for any
+non-zero write flag when the read flag is 0. -/
+
+theorem shutdown_args_partial (rd wr : Int) (hr : rd = 0 ∨ rd = 1) (hw : wr = 0 ∨ wr = 1) :
+    shutdownArgs rd wr = Spec.shutdownArgs rd wr := by
+  rcases hr with rfl | rfl <;> rcases hw with rfl | rfl <;> decide
+
+theorem shutdown_args_write_only (wr : Int) (h : wr ≠ 0) : shutdownArgs 0 wr = Spec.shutdownArgs 0 wr := by
+  have h1 : ¬ ((0 : Int) = 0 ∧ wr = 0) := fun x => h x.2
+  simp [shutdownArgs, Spec.shutdownArgs, h]
+
+/-- the negation of the full statement on concrete arguments: the direction shut down is not the one asked for -/
+theorem shutdown_args_noncanonical_witness :
+    shutdownArgs 2 0 = (false, true) ∧ Spec.shutdownArgs 2 0 = (true, false) ∧
+    shutdownArgs 2 2 = (false, true) ∧ Spec.shutdownArgs 2 2 = (true, true) ∧
+    shutdownArgs 1 2 = (true, false) ∧ Spec.shutdownArgs 1 2 = (true, true) := by decide
+
+/-- … and what that does to a connected socket: `(2, 2)` issues `shutdown (fd, SHUT_WR)` and `connected` stays set,
+    where the call as meant issues SHUT_RDWR and clears it -/
+example :
+    ((call demoSockC10 (.shutdown (shutdownArgs 2 2).1 (shutdownArgs 2 2).2) [{ sys := .shutdown, ret := .ok 0 }]).toOption.map
+      (fun r => (r.tr.map (·.call), r.sock.connected)),
+     (call demoSockC10 (.shutdown (Spec.shutdownArgs 2 2).1 (Spec.shutdownArgs 2 2).2) [{ sys := .shutdown, ret := .ok 0 }]).toOption.map
+      (fun r => (r.tr.map (·.call), r.sock.connected))) =
+    (some ([.shutdown 5 SHUT_WR], true), some ([.shutdown 5 SHUT_RDWR], false)) := by decide
+
+example : shutdownArgs 1 0 = (true, false) ∧ shutdownArgs 0 (-7) = (false, true) ∧ shutdownArgs 0 0 = (false, false) := by decide
+
 end PV.Socket
